@@ -23,8 +23,8 @@ Definition all_fltfmt := [F32; F64; FUnspec; FBad].
 Definition all_keyfmt := [KNone; KInformal; KCustom; KUuid; KId62; KNilType].
 Definition all_entkey := [ENone; EPrimary false; EPrimary true; EForeign; ENilType].
 Definition all_int_rules : list int_rules :=
-  map (fun x => match x with (a, b, c, d) => mkIR a b c d end)
-      (list_prod (list_prod (list_prod bools bools) obools) obools).
+  map (fun x => match x with (a, b, c, d, e) => mkIR a b c d e end)
+      (list_prod (list_prod (list_prod (list_prod bools bools) obools) obools) bools).
 Definition all_oint_rules : list (option int_rules) := None :: map Some all_int_rules.
 
 Definition all_fty : list fty :=
@@ -68,7 +68,7 @@ Lemma entkey_complete e : In e all_entkey.
 Proof. destruct e as [|[|]| |]; simpl; tauto. Qed.
 Lemma int_rules_complete r : In r all_int_rules.
 Proof.
-  destruct r as [a b c d]. unfold all_int_rules. apply in_map_iff. exists (a, b, c, d). split; [reflexivity|].
+  destruct r as [a b c d e]. unfold all_int_rules. apply in_map_iff. exists (a, b, c, d, e). split; [reflexivity|].
   repeat apply in_prod; auto using bools_complete, obools_complete.
 Qed.
 Lemma oint_rules_complete r : In r all_oint_rules.
@@ -246,8 +246,6 @@ Definition has_any (p : prop) : bool :=
   end.
 Definition accepted_language (p : prop) : bool :=
   in_language p && negb (uses_float_rules p) && negb (uses_informal_key_listrules p).
-Definition iso_nerr (p : prop) : nat :=
-  match visit_object p st0 with Ok (_, s) => nerr s | _ => 0 end.
 
 (* everything that is proved about one property, evaluated once over the whole space *)
 Definition iso_spec (p : prop) : bool :=
@@ -311,6 +309,11 @@ Qed.
 Lemma field_imports_cover p : has_any p = false -> field_cover p = true.
 Proof. intros Ha. spec_parts p H. rewrite Ha in Hs. exact Hs. Qed.
 
+(* in the model every recorded error goes through addError, which attaches the node's position: the shape of
+   addError and GetPos is read from the Go source on every run *)
+Lemma errors_positioned_holds : errors_positioned = true.
+Proof. vm_compute. reflexivity. Qed.
+
 (* the documented language at full strength is NOT accepted: float rules, and list rules on an
    informal key, are rejected with a conversion error *)
 Definition float_rules_witness := mkProp false (Plain (TFloat F32 true false)) false false.
@@ -323,3 +326,18 @@ Proof. vm_compute. repeat split. Qed.
 (* Any is the one field type that relies on the enclosing object's import *)
 Lemma any_needs_context : field_cover (mkProp false (Plain (TAny false)) false false) = false.
 Proof. vm_compute. reflexivity. Qed.
+
+(* statements used verbatim by props/C07.v *)
+Definition full_language_statement : Prop :=
+  forall p, in_language p = true -> o_verdict (compile_iso p) = VOk.
+Lemma full_language_refuted : ~ full_language_statement.
+Proof.
+  intros H. pose proof (H float_rules_witness) as Hf.
+  destruct language_refuted as [Hl [Hv _]]. rewrite (Hf Hl) in Hv. discriminate.
+Qed.
+Lemma language_accepted_partial : forall p,
+  in_language p = true -> uses_float_rules p = false -> uses_informal_key_listrules p = false ->
+  o_verdict (compile_iso p) = VOk.
+Proof.
+  intros p H1 H2 H3. apply iso_language_accepted. unfold accepted_language. rewrite H1, H2, H3. reflexivity.
+Qed.
